@@ -132,7 +132,7 @@ SQL_DDL = """
         ensemble_size                INTEGER,
         N                            INTEGER,
         D                            INTEGER,
-        convergence_precision        DOUBLE,
+        convergence_precision        NUMERIC,
         verbose                      INTEGER,
         saving_folder                TEXT,
         initial_random_seed          INTEGER,
